@@ -279,9 +279,19 @@ def check_property(prop, cs, args, seed, lock, write_lock=False):
             continue
         os.makedirs(os.path.join(HERE, "replay", prop), exist_ok=True)
         path = os.path.join(HERE, "replay", prop, f["name"].replace("/", "_")[:150] + ".json")
+        found = f.get("input") is not None
+        if not found:
+            # a finite-table / introspection obligation failed: look for a failing input with the property's native oracle
+            carrier = [c for c in mine if c.replay]
+            if carrier:
+                fake = [{"name": f["name"], "status": "failed", "backend": "table", "line": 0, "note": f.get("message"), "model": None, "path": []}]
+                path2, found2, detail2 = native_replay(prop, carrier[0], fake, os.path.join(HERE, "replay", prop), [])
+                if found2:
+                    f = dict(f, failing_input=detail2.get("failing_input"), message=detail2.get("message"), table_message=f.get("message"))
+                    found = True
         json.dump(f, open(path, "w"), indent=1, default=str)
         violations.append({"contract": f["name"].split("/")[0], "obligations": [f["name"]], "replay": path,
-                           "found": f.get("input") is not None, "detail": f})
+                           "found": found, "detail": f})
 
     # ---- evidence
     level = "proof"
